@@ -437,24 +437,33 @@ def gen_translation(tier, seed):
     thorough = tier == "thorough"
     # (1) code 1, every entry point, every option triple, single sequence
     if thorough:
-        base = list(all_seqs(0, 6)) + list(k_seqs((2,), TAILS)) + list(k_seqs((3,)))
+        base = list(all_seqs(0, 5)) + list(k_seqs((2,), TAILS))
     else:
         base = list(all_seqs(0, 3)) + list(k_seqs((1,), TAILS)) + list(k_seqs((2,), ("", "CA")))
     for s in base:
         for e in ENTRIES:
             for o in OPTS:
                 yield [e, 1, "dna", [["s1", s]], o, None]
+    if thorough:
+        for s in all_seqs(6, 6):
+            for e in SEQ_ENTRIES:
+                for o in OPTS:
+                    yield [e, 1, "dna", [["s1", s]], o, None]
+        for s in k_seqs((3,)):
+            for e in ENTRIES:
+                for o in OPTS[4:]:
+                    yield [e, 1, "dna", [["s1", s]], o, None]
     # (2) every code on the stop-relevant codons
     for gid in CODE_IDS:
         if gid == 1:
             continue
-        for s in k_seqs((1, 2) if thorough else (1,), TAILS if thorough else ("",)):
+        for s in k_seqs((1, 2) if thorough else (1,), ("", "CA") if thorough else ("",)):
             for e in SEQ_ENTRIES:
                 for o in OPTS:
                     yield [e, gid, "dna", [["s1", s]], o, None]
         for s in k_seqs((1, 2) if thorough else (1,)):
             for e in COLL_ENTRIES:
-                for o in OPTS:
+                for o in (OPTS[4:] if thorough else OPTS):    # length % 3 == 0: incomplete_ok plays no role
                     yield [e, gid, "dna", [["s1", s]], o, None]
         if not thorough:
             for s in k_seqs((2,)):
@@ -465,7 +474,7 @@ def gen_translation(tier, seed):
     for s in all_seqs(3, 5 if thorough else 4):
         for e in SEQ_ENTRIES:
             for view in (["+", 1], ["+", 2], ["-", 0], ["-", 1], ["-", 2]):
-                for o in (OPTS if thorough else [[True, True, False], [False, False, True]]):
+                for o in (OPTS[:4] if thorough else [[True, True, False], [False, False, True]]):
                     yield [e, 1, "dna", [["s1", s]], o, view]
     for s in k_seqs((2,)):
         for e in SEQ_ENTRIES + ["old.coll", "new.coll", "old.aln", "old.arr"]:
@@ -533,16 +542,20 @@ def contract_translation(case):
 def gen_agree(tier, seed):
     rnd = random.Random(seed)
     thorough = tier == "thorough"
-    base = list(all_seqs(0, 5 if thorough else 2)) + list(k_seqs((1, 2), TAILS if thorough else ("",))) + GAPPED
+    base = list(all_seqs(0, 4 if thorough else 2)) + list(k_seqs((1, 2), TAILS if thorough else ("",))) + GAPPED
     for s in base:
         for o in OPTS:
             yield [1, [["s1", s]], o]
     for gid in CODE_IDS:
         if gid == 1:
             continue
-        for s in k_seqs((1, 2) if thorough else (1,)):
+        for s in k_seqs((1,)):
             for o in OPTS[4:]:
                 yield [gid, [["s1", s]], o]
+        if thorough:
+            for s in k_seqs((2,)):
+                for o in ([True, True, True], [True, False, True]):
+                    yield [gid, [["s1", s]], o]
     for gid in (1, 2):
         for seqs in MULTI:
             for o in OPTS:
@@ -587,16 +600,20 @@ def contract_agree(case):
 def gen_trim(tier, seed):
     rnd = random.Random(seed)
     thorough = tier == "thorough"
-    base = list(all_seqs(0, 6 if thorough else 4)) + list(k_seqs((2,), TAILS)) + GAPPED
+    base = list(all_seqs(0, 5 if thorough else 4)) + list(k_seqs((2,), TAILS)) + GAPPED
     for s in base:
         for e in ENTRIES:
             for strict in (False, True):
                 yield [e, 1, [["s1", s]], strict]
+    if thorough:
+        for s in all_seqs(6, 6):
+            for e in SEQ_ENTRIES:
+                yield [e, 1, [["s1", s]], False]
     for gid in CODE_IDS:
         if gid == 1:
             continue
         for s in k_seqs((1, 2) if thorough else (1,), TAILS):
-            for e in (ENTRIES if thorough else SEQ_ENTRIES + ["old.aln"]):
+            for e in (SEQ_ENTRIES + ["old.aln", "new.coll"] if thorough else SEQ_ENTRIES + ["old.aln"]):
                 yield [e, gid, [["s1", s]], False]
     for gid in (1, 2, 22):
         for seqs in MULTI + MULTI_RAGGED:
@@ -938,10 +955,11 @@ BOUNDED = {
         "functions": ["genetic_code.GeneticCode.translate", "genetic_code.GeneticCode.sixframes",
                       "new_genetic_code.GeneticCode.translate (rc=False/True)", "new_genetic_code.GeneticCode.sixframes",
                       "app.translate.translate_frames"],
-        "bound": "string entry points: all 27 codes x every ACGT sequence of length 0..5 (quick; +length 6 for codes 1,2,11) / "
-                 "0..7 (thorough) x 3 starts x both strands; object entry points (old sixframes, translate_frames): code 1 x "
-                 "length 0..4 (thorough 0..6) + all codes x 36 (thorough 410) stop-codon sequences; RNA spelling length 1..3(4); "
-                 "seeded random sequences of length 8..60",
+        "bound": "string entry points (old translate, new translate rc=False/True, new sixframes): all 27 codes x every ACGT sequence "
+                 "of length 0..4 (quick; + length 5 for codes 1,2,11,22, length 6 for code 1) / 0..7 (thorough), 3 starts, both "
+                 "strands; object entry points (old sixframes, translate_frames): code 1 x length 0..4 (thorough 0..6) + 26 codes "
+                 "x 56 (thorough 419) short / stop-codon sequences; RNA spelling length 1..3 (4), codes 1,2; 300 (4000) seeded "
+                 "random sequences of length 8..60 with random code",
         "rule": "a case = (entry point, code, sequence); all 3 (6) frames compared with codon-by-codon table lookup, minus "
                 "strand = frames of the reverse complement; non-trivial when length >= 3",
     },
@@ -950,18 +968,20 @@ BOUNDED = {
         "functions": ["sequence.NucleicAcidSequence.get_translation", "new_sequence.NucleicAcidSequenceMixin.get_translation",
                       "alignment._SequenceCollectionBase.get_translation", "alignment.AlignmentI.get_translation",
                       "new_alignment.SequenceCollection.get_translation", "rc()/[f:] views before translation"],
-        "bound": "code 1: every ACGT sequence of length 0..4 (thorough 0..6) + 2 (thorough 3) codons from the 11 stop-relevant "
-                 "codons with tails of 0..2 bases x 6 entry points x 8 option triples; all codes x 1..2 stop-relevant codons; "
-                 "5 strand/frame views x length 3..4(5); RNA; 14 whole-codon-gap sequences; 20 multi-sequence collections "
-                 "(unsorted names, ragged for unaligned); seeded random codon-structured collections",
+        "bound": "code 1 x 6 entry points x 8 option triples x every ACGT sequence of length 0..3 (thorough 0..5; 6 for the two "
+                 "Sequence entry points) + 1..2 (thorough 2..3) codons from the 11 stop-relevant codons with 0..2 trailing bases; "
+                 "26 other codes x 1 (thorough 1..2) stop-relevant codons; rc()/[f:] views (5) x length 3..4 (5); RNA; 14 "
+                 "whole-codon-gap sequences x codes 1,2; 20 multi-sequence inputs (unsorted names, ragged for unaligned) x "
+                 "codes 1,2,22; 400 (6000) seeded random codon-structured collections with random code and options",
         "rule": "a case = (entry point, code, moltype, named sequences, (incomplete_ok, include_stop, trim_stop), view); the "
                 "result's names, order, every row and moltype are compared with the set of outcomes the statement allows",
     },
     "agree": {
         "gen": gen_agree, "contract": contract_agree,
         "functions": ["get_translation of old/new Sequence, old/new SequenceCollection, Alignment, ArrayAlignment"],
-        "bound": "code 1: ACGT sequences of length 0..3 (thorough 0..5) + 1..2 stop-relevant codons with tails + gapped; all "
-                 "codes x stop-relevant codons; 15 multi-sequence inputs; x 8 option triples; seeded random",
+        "bound": "code 1: ACGT sequences of length 0..2 (thorough 0..4) + 1..2 stop-relevant codons (thorough: with 0..2 trailing "
+                 "bases) + 14 gapped, x 8 option triples; 26 other codes x 11 (thorough 132) stop-relevant sequences; 15 "
+                 "multi-sequence inputs x codes 1,2; 100 (1500) seeded random",
         "rule": "a case = (code, named sequences, options); all entry points that return a value must return the same rows "
                 "(trailing gap columns ignored)",
     },
@@ -969,16 +989,18 @@ BOUNDED = {
         "gen": gen_trim, "contract": contract_trim,
         "functions": ["Sequence.has_terminal_stop/trim_stop_codon (old, new)", "SequenceCollection.has_terminal_stop/"
                       "trim_stop_codons (old, new)", "AlignmentI.trim_stop_codons"],
-        "bound": "code 1: ACGT sequences of length 0..4 (thorough 0..6) + stop-relevant codon pairs with tails + gapped, x 6 "
-                 "entry points x strict; all codes x stop-relevant codons; 20 multi-sequence inputs; seeded random",
+        "bound": "code 1: ACGT sequences of length 0..4 (thorough 0..5, 6 for Sequence) + stop-relevant codon pairs with tails + 14 "
+                 "gapped, x 6 entry points x strict; 26 other codes x 33 (thorough 396) stop-relevant sequences; 20 multi-sequence "
+                 "inputs x codes 1,2,22; 150 (2000) seeded random",
         "rule": "a case = (entry point, code, named sequences, strict); has_terminal_stop and every row after trimming "
                 "compared with: last non-gap codon of a length%3==0 sequence is a stop of that table",
     },
     "app": {
         "gen": gen_app, "contract": contract_app,
         "functions": ["app.translate.translate_seqs", "app.translate.select_translatable", "app.translate.best_frame"],
-        "bound": "code 1: ACGT sequences of length 0..3 (thorough 0..5) + stop-relevant codon pairs with tails x trim flag x "
-                 "frame in {best,1,2,3} x allow_rc; all codes x stop-relevant codons; 20 multi-sequence inputs; seeded random",
+        "bound": "code 1: ACGT sequences of length 0..3 (thorough 0..5) + stop-relevant codon pairs with tails (thorough + triples) x "
+                 "trim flag x frame in {best,1,2,3} x allow_rc; 26 other codes x 11 (132) stop-relevant sequences; 20 multi-sequence "
+                 "inputs x codes 1,2; 100 (1500) seeded random collections",
         "rule": "translate_seqs: rows as for get_translation(include_stop=False); select_translatable: every emitted row is a "
                 "reading frame of its input without internal stop (terminal stop trimmed when asked), and an input with such "
                 "a frame is not dropped",
